@@ -109,7 +109,15 @@ def chunkings(n, rng, tier):
     """chunk-length lists (remainder is the last piece) for a message of n bytes"""
     cs = ["-"]                                   # one call
     if n >= 1:
-        cs.append(",".join(["1"] * n))           # bytewise (+ a final empty call)
+        cs.append(",".join(["1"] * n))           # bytewise: the last 1-byte call is the last call before the result
+        cs.append(",".join(["1"] * n) + ",0")    # … and with a final empty call
+    if n >= 2:
+        cs.append(f"{n - 1},1")                  # the final call is one byte (completes a block when n % 16 == 0)
+    if n >= 16:
+        r = n % 16 or 16
+        cs.append(f"{n - r},{r}")                # whole blocks, then exactly the rest as the final call
+        if r >= 2:
+            cs.append(f"{n - r},{r - 1},1")      # the rest in two calls, the second completing it
     if n >= 2:
         a = rng.randrange(1, min(n, 16))         # partial …
         b = rng.randrange(0, min(n - a, 16) + 1)     # … then partial (may or may not complete the block)
@@ -345,7 +353,9 @@ def gen_C09(tier, rng):
             return "i" + hx(rng.rbytes(n))
         return s
 
-    alpha = ["i0", "i5", "i16", "i32", "i27", "R", "W", "r", "c", "x"]
+    # i15;i1 / i27;i5 / i5;i5;i5;i1 complete a block with a SHORT final call (a one-byte call that completes the
+    # staging buffer right before the result is a distinct path: seeded change C05-5)
+    alpha = ["i0", "i1", "i5", "i15", "i16", "i32", "i27", "R", "W", "r", "c", "x"]
     depth = 4 if quick else 5
     # exhaustive histories up to `depth` over the alphabet
     def rec(prefix, d):
